@@ -207,8 +207,22 @@ def truth_entries(c):
         if sub is not None:
             if any(per.get(p, {'full_inds': 0})['full_inds'] < kk for p, kk in sub.items() if p in per):
                 continue
-        out[key] = {'anc': s['anc'], 'per': per}
+        out[key] = {'anc': s['anc'], 'per': per, 'ref': s['ref_t'].upper(), 'alt': s['alt_t'].upper(), 'chrom': s['chrom'], 'pos': s['pos']}
     return out
+
+def snp_file_text(c, rng):
+    """the same data in the SNP-file format of Misc.make_data_dict (one line per usable SNP, allele counts per population)"""
+    t = c['truth']; pops = t['pops']
+    lines = ['# synthetic', 'Ingroup Outgroup Allele1 ' + ' '.join(pops) + ' Allele2 ' + ' '.join(pops) + ' Chrom Pos']
+    for key, e in truth_entries(c).items():
+        out = {'ref': e['ref'], 'alt': e['alt'], None: '-'}[e['anc']]
+        a1 = [e['per'][p]['called'] - e['per'][p]['alt'] for p in pops]
+        a2 = [e['per'][p]['alt'] for p in pops]
+        fields = ['-%s-' % e['ref'], '-%s-' % out, e['ref']] + [str(x) for x in a1] + [e['alt']] + [str(x) for x in a2] + [e['chrom'], str(e['pos'])]
+        if rng.random() < 0.2:
+            fields[0] = fields[0].lower(); fields[1] = fields[1].lower(); fields[2] = fields[2].lower()
+        lines.append(rng.choice([' ', '\t']).join(fields))
+    return '\n'.join(lines) + '\n'
 
 def expected_spectra(c, entries):
     """sum over usable SNPs of the outer product of hypergeometric projections (float arrays): polarised, folded"""
@@ -522,6 +536,22 @@ def predicates(ctx, c, r):
         ctx.obligation('case %d: every bootstrap is the sum of len(chunks) drawn chunk spectra' % c['id'], g7, 'predicate')
         if not g7:
             viol('a bootstrap spectrum is not the sum of the drawn chunk spectra', 'bootstraps_from_dd_chunks:not-sum-of-chunks')
+    # the SNP-file reader (Misc.make_data_dict) on the same counts must give the same dictionary entries and spectra
+    if c.get('snp_text'):
+        if 'snp_error' in r:
+            ctx.obligation('case %d: make_data_dict reads the SNP-file form of the data' % c['id'], False, 'predicate', r['snp_error'])
+            viol('make_data_dict / from_data_dict raised on the SNP-file form of the data: %s' % r['snp_error'], 'make_data_dict:raises')
+        else:
+            sd = {e['key']: e for e in r['snp_dd']}
+            same = set(sd) == set(dd) and all(
+                sorted(map(tuple, sd[k]['calls'])) == sorted(map(tuple, dd[k]['calls'])) and sd[k]['seg'] == dd[k]['seg'] and sd[k]['out'] == dd[k]['out']
+                for k in sd if k in dd)
+            g8 = same and close(r['snp_fs_pol']['data'], r['fs_pol']['data']) and close(r['snp_fs_fold']['data'], r['fs_fold']['data']) \
+                and r['snp_fs_pol']['mask'] == r['fs_pol']['mask'] and r['snp_fs_fold']['mask'] == r['fs_fold']['mask']
+            ctx.obligation('case %d: make_data_dict (SNP file) gives the same entries and spectra as the VCF reader' % c['id'], g8, 'predicate')
+            ctx.count('snp_file_cases')
+            if not g8:
+                viol('Misc.make_data_dict on the SNP-file form of the data gives different entries or spectra than the VCF reader', 'make_data_dict:differs-from-vcf')
     # statistics
     if 'stats' in r and sub is None and not t['inconsistent']:
         for polarized, st, tag in ((True, r['stats'], 'unfolded'), (False, r['stats_fold'], 'folded')):
@@ -564,6 +594,9 @@ def run(ctx):
             c = rp['input']['case']; c['id'] = 0
             c['truth']['samples'] = [tuple(x) for x in c['truth']['samples']]
             cases = [c]
+    for c in cases:
+        if c['truth'] and not c['subsample'] and not c['truth']['inconsistent'] and 'snp_text' not in c:
+            c['snp_text'] = snp_file_text(c, ctx.rng)
     batches = [cases[i:i + 100] for i in range(0, len(cases), 100)]
     for batch in batches:
         res = lib.run_impl('c13_impl.py', [slim(c) for c in batch], timeout=1800)
